@@ -35,7 +35,11 @@ func omAlphabet() []omOp {
 		ops = append(ops, omOp{"delete", k, 0, fmt.Sprintf("Delete(%d)", k)})
 		ops = append(ops, omOp{"foreach-delete-current", k, 0, fmt.Sprintf("ForEach{Delete(current) at %d}", k)})
 		ops = append(ops, omOp{"foreachrev-delete-current", k, 0, fmt.Sprintf("ForEachReverse{Delete(current) at %d}", k)})
+		ops = append(ops, omOp{"foreach-delete-next", k, 0, fmt.Sprintf("ForEach{Delete(successor) at %d}", k)})
+		ops = append(ops, omOp{"foreachrev-delete-next", k, 0, fmt.Sprintf("ForEachReverse{Delete(predecessor) at %d}", k)})
+		ops = append(ops, omOp{"foreach-append", k, 0, fmt.Sprintf("ForEach{Set(9) at %d}", k)})
 	}
+	ops = append(ops, omOp{"delete", 9, 0, "Delete(9)"})
 	ops = append(ops, omOp{"clear", 0, 0, "Clear"})
 	return ops
 }
@@ -94,6 +98,72 @@ func (in *omInst) Apply(i int) string {
 	case "clear":
 		in.real.Clear()
 		in.model = nil
+	case "foreach-delete-next", "foreachrev-delete-next", "foreach-append":
+		// the consumer changes the NEIGHBOURHOOD of the key it is visiting: an entry deleted before its turn is not
+		// visited, an entry appended while the last entry is being visited is
+		rev := o.kind == "foreachrev-delete-next"
+		var seen, want []int
+		mutate := func(cur int, onReal bool) {
+			if cur != o.k {
+				return
+			}
+			idx := in.find(cur)
+			if o.kind == "foreach-append" {
+				if in.find(9) < 0 {
+					if onReal {
+						in.real.Set(9, 1)
+					} else {
+						in.model = append(in.model, kv{9, 1})
+					}
+				}
+				return
+			}
+			n := idx + 1
+			if rev {
+				n = idx - 1
+			}
+			if n >= 0 && n < len(in.model) {
+				if onReal {
+					in.real.Delete(in.model[n].k)
+				} else {
+					in.model = append(in.model[:n:n], in.model[n+1:]...)
+				}
+			}
+		}
+		f := in.real.ForEach
+		if rev {
+			f = in.real.ForEachReverse
+		}
+		// the model is only updated after the real iteration, so that mutate(onReal) can look the neighbour up
+		f(func(k, _ int) bool {
+			seen = append(seen, k)
+			mutate(k, true)
+			return true
+		})
+		start := 0
+		if rev {
+			start = len(in.model) - 1
+		}
+		for i := start; ; {
+			if i < 0 || i >= len(in.model) {
+				break
+			}
+			cur := in.model[i].k
+			want = append(want, cur)
+			mutate(cur, false)
+			i = in.find(cur)
+			if rev {
+				i--
+				if i < 0 {
+					break
+				}
+			} else {
+				i++
+			}
+		}
+		if in.check && fmt.Sprint(seen) != fmt.Sprint(want) {
+			return fmt.Sprintf("%s|iteration-neighbourhood: %s visited %v, expected %v", cls, o.name, seen, want)
+		}
 	case "foreach-delete-current", "foreachrev-delete-current":
 		// a consumer that deletes the key it is visiting must still see every other live key
 		var seen []int
